@@ -130,7 +130,8 @@ Definition no_pairs (d : bdesign) : bool := forallb (fun m => forallb (fun x => 
 
 (* ---- decidable well-formedness used by the theorems about the model of the bundle passes (Props/C01G.v); all of it follows
    from Spec/C01BWf.v:wf_bdesign except the last item, which Python cannot violate (keyword arguments / dict keys are distinct):
-   per module: scalar ports and bundle instances have pairwise distinct names; every bundle definition tree is well formed
+   per module: the names of the module's attributes (ports, signals, bundle instances, instances) are pairwise distinct
+   (stated twice: for ports and bundle instances alone, and for all of them); every bundle definition tree is well formed
    (member names distinct at every level); the ports of a leaf device have distinct names; the member names of every
    anonymous bundle are pairwise distinct, at every nesting level ---- *)
 Fixpoint bexpr_nodup (bx : bexpr) : bool :=
@@ -140,9 +141,14 @@ Fixpoint bexpr_nodup (bx : bexpr) : bool :=
   | _ => true
   end.
 
+(* module.namespace: every named attribute of the module *)
+Definition mod_names (m : bmodule) : list name :=
+  map fst (bm_ports m) ++ map fst (bm_sigs m) ++ map (fun pt : bool * btree => BundleSpec.bname (snd pt)) (bm_bundles m) ++ map bi_name (bm_insts m).
+
 Definition bp_wf_module (m : bmodule) : bool :=
   nodup_names (map fst (bm_ports m) ++ map (fun pt : bool * btree => BundleSpec.bname (snd pt)) (bm_bundles m)) &&
   forallb (fun pt : bool * btree => BundleSpec.wf_tree (snd pt)) (bm_bundles m) &&
-  forallb (fun x => dev_names_ok x && forallb (fun c : name * bexpr => bexpr_nodup (snd c)) (bi_conns x)) (bm_insts m).
+  forallb (fun x => dev_names_ok x && forallb (fun c : name * bexpr => bexpr_nodup (snd c)) (bi_conns x)) (bm_insts m) &&
+  nodup_names (mod_names m).
 
 Definition bp_wf (d : bdesign) : bool := forallb bp_wf_module (bd_mods d).
